@@ -167,9 +167,16 @@ def h_mono(sx, start, mup, ref):
     t2 = _run_timing(sx, now2, start, mup, depth, ref, ast)
     det = {'now1': now1, 'now2': now2, 'pub1': t1.publishTime, 'pub2': t2.publishTime,
            'ast1': t1.availabilityStartTime, 'ast2': t2.availabilityStartTime}
+    # known finding region: a named start (today / month / year) resolved to a *different*
+    # instant for the two requests (the first minute / day belongs to the previous period);
+    # publishTime = AST + k * mup then restarts on a new grid and can step back by < mup
+    region = ''
+    if not start.startswith('explicit') and start not in ('epoch', 'now') and \
+            bool(_us(t1.availabilityStartTime) != _us(t2.availabilityStartTime)):
+        region = '@named_start_switch'
     sx.prove(sx_and(_us(t1.publishTime) <= _us(t2.publishTime),
                     _us(t1.availabilityStartTime) <= _us(t2.availabilityStartTime)),
-             'C08.mono', detail=det)
+             'C08.mono' + region, detail=det)
 
 
 def h_day(sx, start, mup, ref):
